@@ -8,8 +8,9 @@ from props.C04 import call_results, TRK
 from panics import LOG_MACROS
 
 META = {
+    "explanation_r6": 'Also (round 6): get_peers_in_range decides each peer by its own distance — no order-dependent adaptor (take_while, take, skip, …) and no early exit (C11.range.pointwise).',
     "explanation_more": "Also (round 5): the K closest local peers are cut from a distance-ordered sequence — the routing table's iterator for this node's own key, or a sort that no take/truncate precedes (C11.kclosest).",
-    "explanation_more": 'Also (round 4): every routing-table peer within the responsible range is a replication candidate — none is cut away before or after the range filter (C09.candidates.* as C11.replicate.*).',
+    "explanation_more2": 'Also (round 4): every routing-table peer within the responsible range is a replication candidate — none is cut away before or after the range filter (C09.candidates.* as C11.replicate.*).',
     "explanation": "Decides: (1) one metric: KBucketKey::distance is called only from NetworkAddress::distance, sort_peers_by_key and the two "
                    "bucket-index computations of network_discovery (which only take ilog2 to pick a k-bucket); keys are built only by "
                    "as_kbucket_key (KBucketKey::new(as_bytes())) / KBucketKey::from(PeerId); no XorName ordering/XOR is used anywhere; "
